@@ -191,6 +191,68 @@ func TestC10(t *testing.T) {
 	})
 }
 
+// genDeepText: a few long runs and short-period stretches over a two or three
+// letter alphabet (up to about 700 bytes): hundreds of groups are open at the
+// same time, the nesting depth falls by a part and rises again.
+func genDeepText(t *rapid.T) []byte {
+	letters := []byte("abc")[:rapid.IntRange(2, 3).Draw(t, "deepAlpha")]
+	var text []byte
+	for k := rapid.IntRange(2, 6).Draw(t, "deepParts"); k > 0 && len(text) < 700; k-- {
+		var L int
+		switch rapid.IntRange(0, 3).Draw(t, "deepLenKind") {
+		case 0:
+			L = rapid.IntRange(1, 20).Draw(t, "deepShort")
+		case 1:
+			L = rapid.IntRange(120, 140).Draw(t, "deepAround128")
+		default:
+			L = rapid.IntRange(100, 270).Draw(t, "deepLong")
+		}
+		w := 1
+		if rapid.IntRange(0, 3).Draw(t, "deepPeriodic") == 0 {
+			w = rapid.IntRange(2, 3).Draw(t, "deepPeriod")
+		}
+		word := make([]byte, w)
+		for i := range word {
+			word[i] = rapid.SampledFrom(letters).Draw(t, "deepLetter")
+		}
+		for i := 0; i < L; i++ {
+			text = append(text, word[i%w])
+		}
+	}
+	if len(text) > 700 {
+		text = text[:700]
+	}
+	return text
+}
+
+// TestC10Deep: nesting depths of 100 and more (see genDeepText); the maximum
+// length mostly does not cut the groups.
+func TestC10Deep(t *testing.T) {
+	st := statsFor("C10")
+	rapid.Check(t, func(t *rapid.T) {
+		text := genDeepText(t)
+		n := len(text)
+		c := segCase{Text: text, LibSA: rapid.Bool().Draw(t, "libSA")}
+		switch rapid.IntRange(0, 3).Draw(t, "deepLens") {
+		case 0:
+			c.MinLen, c.MaxLen = genSegLens(t, n)
+		case 1:
+			c.MinLen, c.MaxLen = rapid.IntRange(0, 3).Draw(t, "minLen"), rapid.IntRange(100, 300).Draw(t, "maxLenAround")
+		default:
+			c.MinLen, c.MaxLen = rapid.IntRange(0, 3).Draw(t, "minLen"), n+1
+		}
+		beginCase("C10", "deep", func() any { return c })
+		defer endCase()
+		msg, bad, nt := checkSegCase(c)
+		endCase()
+		if bad {
+			recordFailure("C10", "deep", c, msg)
+			t.Fatalf("C10 violated: %s", msg)
+		}
+		st.eval([]string{"deep-nesting"}, nt, hashJSON(c), "deep", func() any { return c })
+	})
+}
+
 // TestC10Enum: all texts over {a,b} up to length $VERIF_C10_AB (default 9) and
 // over {a,b,c} up to $VERIF_C10_ABC (default 5), each with every
 // (minLen, maxLen), 0 <= minLen <= maxLen <= n+1.
